@@ -108,7 +108,8 @@ class C09:
         "cases = (command shape from a 63-entry table of outcome classes: success, exit status, command not found / not executable / not launchable (ValueError from Popen) at each position, exception and SystemExit inside aliases at each position, "
         "early-exit consumer under an infinite or large producer, missing redirect target / input at each stage, conflicting redirects, unthreadable alias in a pipeline, background jobs, SIGINT delivered mid-command, "
         "captures nested inside aliases) x capture form {bare, ![], $[], $(), !(), @$()} x repetitions; judged = equality of the resource sample (fds+targets, children+state, threads, cwd, sys.std* identity/closed, "
-        "detyped env, unfinished jobs, SIGINT effect, liveness probe) taken after 2 warm-up executions and after N more; distinct_nontrivial = distinct (shape, form, repetitions)"
+        "detyped env, unfinished jobs, SIGINT effect, liveness probe) taken after 2 warm-up executions and after N more; plus scope-lifetime cases (non-blocking command with a gated alias started inside "
+        "redirect_stdout(+stderr) / the shell's Tee / an undone assignment, scope ended while the alias thread runs, sys.std* identity judged once the command finished); distinct_nontrivial = distinct (shape, form, repetitions) and (scope case)"
     )
     assumptions = [
         "samples are taken at quiescence: the sampler is polled until two consecutive reads 50 ms apart agree (at most 3 s), so xonsh's own join/close windows are honoured",
@@ -136,6 +137,8 @@ class C09:
             r.append("SIGINT / liveness probes under-exercised")
         if c.get("set:shapes", 0) < len(SHAPES):
             r.append("not every shape exercised")
+        if c.get("scope_lifetime_checks", 0) < 24:
+            r.append("fewer than 24 commands observed finishing after the stream scope they were started in had ended")
         if c.get("pty_terminal_owner_checks", 0) < 150:
             r.append("pty layer: fewer than 150 terminal-ownership observations")
         if c.get("pty_terminal_handed_to_job", 0) < 20:
@@ -214,6 +217,20 @@ class C09:
         al["uexit"] = unthreadable(lambda args: aexit(args))
         al["urin"] = unthreadable(urin)
         al["anest"], al["anestfail"] = anest, anestfail
+        self.gate_started, self.gate_release = threading.Event(), threading.Event()
+
+        def agate(args, stdin=None, stdout=None, stderr=None):
+            # still busy when the caller has moved on: ends only when the harness says so
+            self.gate_started.set()
+            self.gate_release.wait(20)
+            if stdin is not None and args and args[0] == "in":
+                stdin.read()
+            print("<G-print>")
+            stdout.write("<G>\n")
+            stderr.write("<GE>\n")
+            return 0
+
+        al["agate"] = agate
         os.chdir(self.work)
         with open(os.path.join(self.work, "inp"), "w") as fh:
             fh.write("<IN>\n")
@@ -421,7 +438,7 @@ class C09:
             except OSError:
                 self.ignored_children.add(pid)
         for t in threading.enumerate():
-            if t is not threading.main_thread() and t.is_alive():
+            if t is not threading.main_thread() and t.is_alive() and not isinstance(t, threading._DummyThread):
                 t.join(0.5)
                 if t.is_alive():
                     self.ignored_threads.add(t.ident)
@@ -542,11 +559,109 @@ class C09:
             viol("TERMINAL-MODES-CHANGED-AFTER-SUSPEND-FG")
         rec.count("conservation_checks")
 
+    # ---- commands that outlive a scope of the caller ------------------------------------------------
+    SCOPE_CMDS = ["agate", "agate | cat", "tagger 1 | agate in", "agate | agate in", "agate e>o | cat"]
+    SCOPE_LAUNCH = ["r = !(%s)", "%s &"]
+    SCOPE_KINDS = ["redirect_stdout+stderr", "redirect_stdout", "shell-Tee", "user-assignment"]
+
+    def run_scope_case(self, case, rec):
+        """A command that does not block its caller (`r = !(alias)`, `alias &`) is started while sys.stdout / sys.stderr
+        are temporarily replaced by a scope of the caller (contextlib.redirect_*, the Tee the interactive shell puts around
+        every input line, a plain assignment that is undone); the scope ends while the alias thread is still running, then
+        the command finishes.  Finishing must leave sys.std* as they were the moment before it finished."""
+        import contextlib
+        import io
+
+        from xonsh.procs.proxies import ProcProxyThread
+
+        cmd, launch, kind = case["cmd"], case["launch"], case["scope"]
+        src = launch % cmd
+        rec.case(nontrivial=repr(("scope", cmd, launch, kind)))
+        self.cleanup_between_items()
+        self.gate_started.clear()
+        self.gate_release.clear()
+        sys.stdout.flush()
+        sys.stderr.flush()
+        os.dup2(self.null1, 1)
+        os.dup2(self.null2, 2)
+        pre = (sys.stdout, sys.stderr, sys.stdin)
+        tee = None
+        started = False
+        out = "ok"
+        try:
+            self.ctx.pop("r", None)
+            with contextlib.ExitStack() as st:
+                if kind.startswith("redirect_stdout"):
+                    st.enter_context(contextlib.redirect_stdout(io.StringIO()))
+                    if kind.endswith("stderr"):
+                        st.enter_context(contextlib.redirect_stderr(io.StringIO()))
+                elif kind == "shell-Tee":
+                    from xonsh.shells.base_shell import Tee
+
+                    tee = Tee(encoding="utf-8", errors="replace")
+                    st.callback(tee.close)
+                else:
+                    sys.stdout, sys.stderr = io.StringIO(), io.StringIO()
+                    st.callback(lambda: (setattr(sys, "stdout", pre[0]), setattr(sys, "stderr", pre[1])))
+                try:
+                    with harness.alarm(30):
+                        self.ex.exec(src + "\n", glbs=self.ctx, locs=None, mode="exec", filename="<c09-scope>")
+                        started = self.gate_started.wait(15)
+                except harness.CaseTimeout:
+                    out = "HANG"
+                except BaseException as e:  # noqa
+                    out = type(e).__name__
+            after_scope = (sys.stdout, sys.stderr, sys.stdin)
+            self.gate_release.set()
+            try:
+                with harness.alarm(30):
+                    r = self.ctx.get("r")
+                    if r is not None and hasattr(r, "end"):
+                        r.end()
+                    end = time.time() + 20
+                    while time.time() < end and any(isinstance(t, ProcProxyThread) and t.is_alive() for t in threading.enumerate()):
+                        time.sleep(0.01)
+            except harness.CaseTimeout:
+                out = "HANG"
+            except BaseException as e:  # noqa
+                out = out if out != "ok" else type(e).__name__
+            alive = [t.name for t in threading.enumerate() if isinstance(t, ProcProxyThread) and t.is_alive()]
+            final = (sys.stdout, sys.stderr, sys.stdin)
+        finally:
+            self.gate_release.set()
+            sys.stdout, sys.stderr, sys.stdin = pre
+            os.dup2(self.real1, 1)
+            os.dup2(self.real2, 2)
+        rec.count("commands_run")
+        rec.count("scope_outcome_" + out)
+        info = {"src": src, "scope": kind, "outcome": out}
+        if not started or out != "ok" or alias_left(alive):
+            # the schedule wanted was not produced (alias never ran / never ended): nothing to judge
+            rec.count("scope_cases_not_judged")
+            rec.count("scope_not_judged:" + ("alias-never-started" if not started else out if out != "ok" else "alias-thread-still-alive") + ":" + src)
+            return
+        if after_scope[0] is not pre[0] or (kind != "redirect_stdout" and after_scope[1] is not pre[1]):
+            rec.count("scope_cases_not_judged")  # the scope itself did not put the streams back: harness problem, not xonsh's
+            rec.count("scope_not_judged:scope-did-not-restore:" + kind + ":" + launch % "X" + ":" + type(after_scope[0]).__name__ + "/" + type(after_scope[1]).__name__)
+            return
+        rec.count("scope_lifetime_checks")
+        rec.setadd("scope_schedules", repr((cmd, launch, kind)))
+        # a stream the scope did not cover is still xonsh's dispatcher while the alias runs; once the command has finished
+        # every stream must be the object it was before the command was started
+        for nm, a, b in zip(("stdout", "stderr", "stdin"), pre, final):
+            if a is not b:
+                rec.violation(f"STD-STREAM-CHANGED/sys.{nm}-replaced-by-a-finishing-command/started-inside-an-ended-scope", case,
+                              dict(info, now=f"{type(b).__module__}.{type(b).__name__}", closed=bool(getattr(b, "closed", False))))
+            elif getattr(b, "closed", False):
+                rec.violation(f"STD-STREAM-CHANGED/sys.{nm}-closed-by-a-finishing-command/started-inside-an-ended-scope", case, info)
+
     def run_case(self, case, rec):
         if case.get("pty") and not self.pty:
             return self._pty_cases([case], rec, 300)  # replay of a pty witness
         if not hasattr(self, "XSH"):
             self._setup()
+        if case.get("scope"):
+            return self.run_scope_case(case, rec)
         if case["label"].startswith("suspend/"):
             return self.run_suspend_case(case, rec)
         label, cmd, form, reps = case["label"], case["cmd"].replace("BIG", self.big), case["form"], case["reps"]
@@ -802,6 +917,14 @@ class C09:
             if i < 2:
                 rec.sample({"src": render(cmd, form), "reps": case["reps"]}, label.split("/")[0])
             self.run_case(case, rec)
+        scope = [(c, l, k) for c in self.SCOPE_CMDS for l in self.SCOPE_LAUNCH for k in self.SCOPE_KINDS]
+        rng.shuffle(scope)
+        for c, l, k in harness.budgeted(scope[sh["index"] :: 16] * (1 if sh["tier"] == "quick" else 6), rec):
+            self.run_case({"label": "scope/" + k, "cmd": c, "launch": l, "scope": k}, rec)
+
+
+def alias_left(alive):
+    return bool(alive)
 
 
 CHECK = C09()
